@@ -6,6 +6,7 @@ import (
 	"fmt"
 	"math/rand/v2"
 	"net/netip"
+	"sort"
 	"strings"
 	"time"
 
@@ -513,6 +514,27 @@ func (c18) Check(out *sim.Outcome, ri *RunInfo) []Violation {
 				}
 			}
 		}
+		if family == "cache-ip" {
+			// public IP: a computation completes when an iteration (of any caller) that asked a provider returned a value
+			for _, cs2 := range w.Calls {
+				for _, it2 := range cs2.Iters {
+					if it2.Err == nil && it2.IP != "" && it2.DialsDuring > 0 {
+						stores = append(stores, store{it2.IP, it2.EndAt})
+					}
+				}
+			}
+		}
+		// Which successful computations are certainly in the cache? One that completes while an earlier
+		// entry is still live may replace it (fresh expiry) or leave it alone (old expiry): both keep the
+		// property. Only a computation that completes on an empty or expired cache is a guaranteed store.
+		sort.SliceStable(stores, func(i, j int) bool { return stores[i].at < stores[j].at })
+		var guaranteed []store
+		for _, s := range stores {
+			if n := len(guaranteed); n > 0 && guaranteed[n-1].at+ttl >= s.at {
+				continue
+			}
+			guaranteed = append(guaranteed, s)
+		}
 		for _, cs := range w.Calls {
 			for k, it := range cs.Iters {
 				val := it.IP
@@ -527,26 +549,14 @@ func (c18) Check(out *sim.Outcome, ri *RunInfo) []Violation {
 				// acceptable: every success stored no later than the moment the call returned and not yet
 				// expired then (a concurrent caller may legitimately have replaced the entry meanwhile)
 				var acceptable []string
-				if family == "cache-dns" {
-					for _, s := range stores {
-						if s.at < it.StartAt && s.at+ttl > it.EndAt {
-							fresh = append(fresh, s.val)
-						}
-						if s.at <= it.EndAt && s.at+ttl >= it.StartAt {
-							acceptable = append(acceptable, s.val)
-						}
+				for _, s := range guaranteed {
+					if s.at < it.StartAt && s.at+ttl > it.EndAt {
+						fresh = append(fresh, s.val)
 					}
-				} else {
-					// public IP: a store completes when an earlier iteration (of any caller) returned a value
-					for _, cs2 := range w.Calls {
-						for _, it2 := range cs2.Iters {
-							if it2.Err == nil && it2.IP != "" && it2.EndAt < it.StartAt && it2.EndAt+ttl > it.EndAt && it2.DialsDuring > 0 {
-								fresh = append(fresh, it2.IP)
-							}
-							if it2.Err == nil && it2.IP != "" && it2.EndAt <= it.EndAt && it2.EndAt+ttl >= it.StartAt && it2.DialsDuring > 0 {
-								acceptable = append(acceptable, it2.IP)
-							}
-						}
+				}
+				for _, s := range stores {
+					if s.at <= it.EndAt && s.at+ttl >= it.StartAt {
+						acceptable = append(acceptable, s.val)
 					}
 				}
 				queried := it.DNSCallsDuring
